@@ -72,7 +72,7 @@ class Probe(EventABC):
         hs.append(EventHook(event=self, hook_type="execution", is_before=False))
         return hs
 
-    def hooked_before_order(self, simulator, order): EV.append(("h_bo", order))
+    def hooked_before_order(self, simulator, order): EV.append(("h_bo", order, order.placed_at, order.order_id))
     def hooked_after_order(self, simulator, order_log): EV.append(("h_ao", order_log))
     def hooked_before_cancel(self, simulator, cancel): EV.append(("h_bc", cancel))
     def hooked_after_cancel(self, simulator, cancel_log): EV.append(("h_ac", cancel_log))
